@@ -47,6 +47,14 @@ type loopInfo struct {
 	pre     *State // state on entry (before havoc)
 	head    *State // state at header after havoc + invariants
 	variant []string
+	frames  []loopFrame
+}
+
+type loopFrame struct {
+	key    string
+	stable []string
+	pre    string
+	top    string
 }
 
 // ---- CFG utilities ----
@@ -261,6 +269,7 @@ func (e *Engine) enterLoop(fr *Frame, li *loopInfo, st *State) *State {
 		return ws
 	}
 	ws := dry(st)
+	mark := -1
 	granular := false
 	for _, hw := range ws.heap {
 		if !hw.whole {
@@ -283,7 +292,7 @@ func (e *Engine) enterLoop(fr *Frame, li *loopInfo, st *State) *State {
 			coarse.addHeap(k, "")
 		}
 		scratch := st.clone()
-		mark := e.ctx.n
+		mark = e.ctx.n
 		e.dry++
 		e.havoc(scratch, coarse, "dry")
 		e.dry--
@@ -314,6 +323,29 @@ func (e *Engine) enterLoop(fr *Frame, li *loopInfo, st *State) *State {
 	h := st.clone()
 	e.havoc(h, ws, fmt.Sprintf("L%d", li.ordinal))
 	e.rangeLoopFacts(fr, li, h)
+	// automatic frame invariant: objects that existed before the loop and are not
+	// written through a loop-invariant reference keep their contents
+	li.frames = nil
+	if e.fc != nil && e.fc.HasAssigns && !e.fc.AssignsAll && !ws.all && mark >= 0 {
+		var keys []string
+		for k, hw := range ws.heap {
+			if hw.whole && !strings.HasPrefix(k, "B$") {
+				keys = append(keys, k)
+			}
+		}
+		sort.Strings(keys)
+		for _, k := range keys {
+			lf := loopFrame{key: k, pre: e.heapTerm(li.pre, k, e.heapSorts[k]), top: e.entryTop}
+			for r := range ws.heap[k].refs {
+				if maxID(r) <= mark {
+					lf.stable = append(lf.stable, r)
+				}
+			}
+			sort.Strings(lf.stable)
+			li.frames = append(li.frames, lf)
+			e.ctx.Assume(implies(h.pc, e.frameFormula(lf, h.heap[k], "")))
+		}
+	}
 	for _, inv := range invs {
 		g := e.evalBool(inv.Expr, e.envAt(fr, h, li))
 		e.ctx.Assume(implies(h.pc, g))
@@ -367,6 +399,11 @@ func (e *Engine) closeLoop(fr *Frame, li *loopInfo, st *State) {
 	for i, inv := range invs {
 		g := e.evalBool(inv.Expr, e.envAt(fr, st, li))
 		e.oblige(st, fr.label+fmt.Sprintf("inv-preserved/%d.%d", li.ordinal, i+1), g, inv.Pos, "loop invariant preserved: "+inv.Src, inv.Tags)
+	}
+	for _, lf := range li.frames {
+		r := e.ctx.Declare("fr", "Int")
+		now := e.heapTerm(st, lf.key, e.heapSorts[lf.key])
+		e.oblige(st, fr.label+fmt.Sprintf("inv-frame/%d/%s", li.ordinal, lf.key), e.frameFormula(lf, now, r), "", "loop frame: objects allocated before the loop keep their "+lf.key+" unless written through a loop-invariant reference", nil)
 	}
 	if len(decr) > 0 && len(li.variant) == len(decr) {
 		// lexicographic decrease, each component bounded below by 0
@@ -531,9 +568,9 @@ func (e *Engine) strLit(s string) string {
 	}
 	if !e.ctx.decls[name] {
 		var b strings.Builder
-		fmt.Fprintf(&b, "(declare-fun %s () Str)\n(assert (= (str.len %s) %d))", name, name, len(s))
+		fmt.Fprintf(&b, "(declare-fun %s () Str)\n(assert (= (gs.len %s) %d))", name, name, len(s))
 		for i := 0; i < len(s) && i < 256; i++ {
-			fmt.Fprintf(&b, "\n(assert (= (str.at %s %d) %d))", name, i, s[i])
+			fmt.Fprintf(&b, "\n(assert (= (gs.at %s %d) %d))", name, i, s[i])
 		}
 		e.ctx.Global(name, b.String())
 	}
@@ -959,8 +996,8 @@ func (e *Engine) execIndex(fr *Frame, st *State, ins *ssa.Index) Val {
 		}
 		return e.nameVal("ix", xt.Elem(), buildAll(xt.Elem(), ts), st)
 	case *types.Basic: // string
-		e.oblige(st, "safety/idx", and(sx("<=", "0", idx), sx("<", idx, sx("str.len", x.T))), pos, "string index in range", nil)
-		v := intv(sx("str.at", x.T, idx))
+		e.oblige(st, "safety/idx", and(sx("<=", "0", idx), sx("<", idx, sx("gs.len", x.T))), pos, "string index in range", nil)
+		v := intv(sx("gs.at", x.T, idx))
 		return v
 	}
 	unsup("index on %s", ins.X.Type())
@@ -1013,7 +1050,7 @@ func (e *Engine) execSlice(fr *Frame, st *State, ins *ssa.Slice) Val {
 		ref := e.arrayRefOf(x, ins.X.Type())
 		return Val{K: KSlice, Typ: ins.Type(), Fs: []Val{intv(ref), intv(lo), intv(e.ctx.Define("len", "Int", sx("-", hi, lo))), intv(e.ctx.Define("cap", "Int", sx("-", bound, lo)))}}
 	case *types.Basic: // string
-		ln := sx("str.len", x.T)
+		ln := sx("gs.len", x.T)
 		if lo == "" {
 			lo = "0"
 		}
@@ -1029,13 +1066,13 @@ func (e *Engine) execSlice(fr *Frame, st *State, ins *ssa.Slice) Val {
 
 // strSub returns a fresh string equal to s[lo:hi].
 func (e *Engine) strSub(s, lo, hi string) string {
-	if lo == "0" && hi == sx("str.len", s) {
+	if lo == "0" && hi == sx("gs.len", s) {
 		return s
 	}
 	n := e.ctx.Declare("sub", "Str")
 	e.ctx.Assume(and(
-		eq(sx("str.len", n), sx("-", hi, lo)),
-		fmt.Sprintf("(forall ((i Int)) (! (=> (and (<= 0 i) (< i (- %s %s))) (= (str.at %s i) (str.at %s (+ %s i)))) :pattern ((str.at %s i))))", hi, lo, n, s, lo, n)))
+		eq(sx("gs.len", n), sx("-", hi, lo)),
+		fmt.Sprintf("(forall ((i Int)) (! (=> (and (<= 0 i) (< i (- %s %s))) (= (gs.at %s i) (gs.at %s (+ %s i)))) :pattern ((gs.at %s i))))", hi, lo, n, s, lo, n)))
 	return n
 }
 
@@ -1128,4 +1165,24 @@ func (e *Engine) assumeGlobalInv(fr *Frame, st *State, g *ssa.Global) {
 		e.ctx.Assume(t)
 		e.note("invariant of immutable global " + gi.Name + " (proved against the package initialiser)")
 	}
+}
+
+// frameFormula: forall r alive before the loop and not among the stable written
+// references, now[r] == pre[r].  With a Skolem constant the quantifier is dropped.
+func (e *Engine) frameFormula(lf loopFrame, now, skolem string) string {
+	r := skolem
+	if r == "" {
+		r = "r"
+	}
+	alive := or(and(sx(">", r, "0"), sx("<=", r, lf.top)),
+		and(sx("<", r, "0"), sx("<=", sx("div", sx("-", r), num(embStride)), lf.top)))
+	conds := []string{alive}
+	for _, s := range lf.stable {
+		conds = append(conds, not(eq(r, s)))
+	}
+	body := implies(and(conds...), eq(sx("select", now, r), sx("select", lf.pre, r)))
+	if skolem != "" {
+		return body
+	}
+	return fmt.Sprintf("(forall ((r Int)) (! %s :pattern ((select %s r))))", body, now)
 }
